@@ -7,6 +7,7 @@ import (
 	"fmt"
 	"sort"
 	"strings"
+	"time"
 )
 
 var verifPristinePerms = func() map[string][]string {
@@ -119,4 +120,22 @@ func (g *Group) VerifPeek() (locked bool, members []string, ops int, max int, au
 // scheduler, where only one thread runs at a time).
 func VerifGetUnlocked(name string) *Group {
 	return groups.groups[name]
+}
+
+// VerifInForce returns the admission-relevant fields of the description the
+// group holds right now, WITHOUT taking the lock (same use as VerifPeek).
+func (g *Group) VerifInForce() (max int, notBefore, expires *time.Time, autokick bool) {
+	d := g.description
+	if d == nil {
+		return
+	}
+	return d.MaxClients, d.NotBefore, d.Expires, d.Autokick
+}
+
+// VerifDescFile returns the file the description in force was read from.
+func (g *Group) VerifDescFile() string {
+	if g.description == nil {
+		return ""
+	}
+	return g.description.FileName
 }
